@@ -301,3 +301,119 @@ def ref_deref(I, m, a, dt): return I.read_ref(a[0])
 def log_nop(I, m, a, dt):
     if m.group(0).endswith('max_level'): return VInt(0, 'usize')
     return VUnit()
+
+# ---- further integer methods (symbolic arguments are concretised by all-SAT forking where no closed form is used) ----
+def _rng(ty): return INT_RANGE[ty]
+def _fit(ty, r):
+    lo, hi = _rng(ty); return lo <= r <= hi
+@model(r'^core::num::<impl ' + INTTY + r'>::(pow|saturating_pow|checked_pow|wrapping_pow|overflowing_pow)$')
+def int_pow(I, m, a, dt):
+    ty = m.group(1); k = m.group(2); lo, hi = _rng(ty)
+    e = I.concretize(a[1].v, limit=200, what='integer pow exponent')
+    if e > 4096: raise PathEnd('bound', 'integer pow exponent > 4096')
+    b = a[0].v
+    if is_conc(b): r = b ** e
+    else:
+        if e > 16: b = I.concretize(b, what='integer pow base'); r = b ** e
+        else: r = z3.Product([b] * e) if e else 1
+    fits = _fit(ty, r) if is_conc(r) else None
+    if fits is None:
+        fits = I.branch(zand(r >= lo, r <= hi))
+    if k == 'pow':
+        if fits: return VInt(r, ty)
+        if I.params.get('profile') == 'release': return VInt(I.wrap(r, ty), ty)
+        raise PathEnd('panic', 'attempt to multiply with overflow (pow)')
+    if k == 'saturating_pow':
+        if fits: return VInt(r, ty)
+        neg = (r < 0) if is_conc(r) else I.branch(r < 0)
+        return VInt(lo if neg else hi, ty)
+    if k == 'checked_pow': return some(VInt(r, ty)) if fits else none()
+    if k == 'wrapping_pow': return VInt(r if fits else I.wrap(r, ty), ty)
+    return VTuple([VInt(r if fits else I.wrap(r, ty), ty), VBool(not fits)])
+@model(r'^core::num::<impl ' + INTTY + r'>::(saturating_mul|checked_div|checked_rem|checked_neg|wrapping_neg|checked_abs|wrapping_abs|saturating_abs|abs_diff|rem_euclid|div_euclid|overflowing_add|overflowing_sub|overflowing_mul|saturating_neg|wrapping_div|wrapping_rem)$')
+def int_misc(I, m, a, dt):
+    ty = m.group(1); k = m.group(2); lo, hi = _rng(ty)
+    x = a[0].v; y = a[1].v if len(a) > 1 else None
+    def sat(r):
+        if is_conc(r): return min(max(r, lo), hi)
+        return z3.If(r < lo, lo, z3.If(r > hi, hi, r))
+    if k == 'saturating_mul': return VInt(sat(x * y), ty)
+    if k in ('overflowing_add', 'overflowing_sub', 'overflowing_mul'):
+        r = {'add': x + y, 'sub': x - y, 'mul': x * y}[k[12:]]
+        ovf = (not _fit(ty, r)) if is_conc(r) else z3.Or(r < lo, r > hi)
+        return VTuple([VInt(I.wrap(r, ty), ty), VBool(ovf)])
+    if k in ('checked_neg', 'wrapping_neg', 'saturating_neg'):
+        r = -x
+        if k == 'wrapping_neg': return VInt(I.wrap(r, ty), ty)
+        if k == 'saturating_neg': return VInt(sat(r), ty)
+        if I.branch(zand(r >= lo, r <= hi)): return some(VInt(r, ty))
+        return none()
+    if k in ('checked_abs', 'wrapping_abs', 'saturating_abs'):
+        r = abs(x) if is_conc(x) else z3.If(x < 0, -x, x)
+        if k == 'wrapping_abs': return VInt(I.wrap(r, ty), ty)
+        if k == 'saturating_abs': return VInt(sat(r), ty)
+        if I.branch(zand(r >= lo, r <= hi)): return some(VInt(r, ty))
+        return none()
+    if k == 'abs_diff':
+        uty = 'u' + ty[1:] if ty.startswith('i') else ty
+        d = x - y
+        return VInt(abs(d) if is_conc(d) else z3.If(d < 0, -d, d), uty)
+    if k in ('checked_div', 'checked_rem', 'wrapping_div', 'wrapping_rem', 'rem_euclid', 'div_euclid'):
+        if I.branch(y == 0):
+            if k.startswith('checked'): return none()
+            raise PathEnd('panic', 'division by zero')
+        if k in ('rem_euclid', 'div_euclid'):
+            if is_conc(x) and is_conc(y):
+                r = x % abs(y); q = (x - r) // y
+            else:
+                ay = z3.If(y < 0, -y, y) if not is_conc(y) else abs(y)
+                r = x % ay; q = (x - r) / y
+            return VInt(r if k == 'rem_euclid' else q, ty)
+        v = I.int_binop('Div' if k.endswith('div') else 'Rem', VInt(x, ty), VInt(y, ty))
+        if k.startswith('checked'):
+            if I.branch(zand(v.v >= lo, v.v <= hi)): return some(v)
+            return none()
+        return VInt(I.wrap(v.v, ty), ty)
+    raise Unsupported('int method ' + k)
+@model(r'^core::num::<impl ' + INTTY + r'>::(leading_zeros|trailing_zeros|count_ones|count_zeros|is_power_of_two|ilog10|ilog2|ilog|checked_ilog10|next_power_of_two|swap_bytes|to_be|to_le)$')
+def int_bits(I, m, a, dt):
+    ty = m.group(1); k = m.group(2)
+    bits = {'8': 8, '16': 16, '32': 32, '64': 64, '128': 128, 'size': 64}[ty[1:]]
+    x = I.concretize(a[0].v, limit=300, what=k + ' argument')
+    ux = x % (1 << bits)
+    if k == 'leading_zeros': return VInt(bits - ux.bit_length(), 'u32')
+    if k == 'trailing_zeros': return VInt(bits if ux == 0 else (ux & -ux).bit_length() - 1, 'u32')
+    if k == 'count_ones': return VInt(bin(ux).count('1'), 'u32')
+    if k == 'count_zeros': return VInt(bits - bin(ux).count('1'), 'u32')
+    if k == 'is_power_of_two': return VBool(ux != 0 and ux & (ux - 1) == 0)
+    if k in ('ilog10', 'checked_ilog10'):
+        if x <= 0:
+            if k.startswith('checked'): return none()
+            raise PathEnd('panic', 'ilog10 of non-positive')
+        r = len(str(x)) - 1
+        return some(VInt(r, 'u32')) if k.startswith('checked') else VInt(r, 'u32')
+    if k == 'ilog2':
+        if x <= 0: raise PathEnd('panic', 'ilog2 of non-positive')
+        return VInt(x.bit_length() - 1, 'u32')
+    if k == 'next_power_of_two': return VInt(1 if ux <= 1 else 1 << (ux - 1).bit_length(), ty)
+    raise Unsupported('int bits ' + k)
+@model(r'^<' + INTTY + r' as Ord>::clamp$|^core::num::<impl ' + INTTY + r'>::clamp$')
+def int_clamp(I, m, a, dt):
+    x, lo, hi = a[0].v, a[1].v, a[2].v; ty = a[0].ty
+    if is_conc(x) and is_conc(lo) and is_conc(hi): return VInt(min(max(x, lo), hi), ty)
+    return VInt(z3.If(x < lo, lo, z3.If(x > hi, hi, x)), ty)
+@model(r'^<' + INTTY + r' as (?:std::ops::)?(Add|Sub|Mul|Div|Rem|Neg)(?:<[^>]*>)?>::(add|sub|mul|div|rem|neg)$')
+def int_op_trait(I, m, a, dt):
+    ty = m.group(1); op = m.group(3)
+    x = deref(I, a[0])
+    if op == 'neg':
+        r = -x.v; lo, hi = _rng(ty)
+        if I.params.get('profile') != 'release' and I.branch(znot(zand(r >= lo, r <= hi))): raise PathEnd('panic', 'attempt to negate with overflow')
+        return VInt(I.wrap(r, ty), ty)
+    y = deref(I, a[1])
+    if op in ('add', 'sub', 'mul'):
+        t = I.int_binop(op.capitalize() + 'WithOverflow', x, y)
+        if I.params.get('profile') != 'release' and I.branch(t.items[1].v): raise PathEnd('panic', f'attempt to {op} with overflow')
+        return VInt(I.wrap(t.items[0].v, ty), ty)
+    if I.branch(y.v == 0): raise PathEnd('panic', 'division by zero')
+    return I.int_binop(op.capitalize(), x, y)
